@@ -15,7 +15,7 @@ package agreement
 // point, or the step budget is exhausted.  Synchronous schedulers (re-broadcasts are delivered again, see forgetDelivered):
 //
 //	ls   lock-step: every fresh message is delivered (random order) before any timer fires; when nothing is deliverable the node
-//	     that is furthest behind in (round, period, period-relative expiry of its next timer) fires that timer — the step timer,
+//	     whose next timer has the smallest period-relative expiry fires that timer — the step timer,
 //	     or the fast-recovery timer once the step deadline lies beyond it (see pickLaggard).
 //	nd   (only on request, VERIF_C05_MODE=nd; K is not monitored) NetDrive's own `sync` profile = ls, but 30 % of the timers are
 //	     those of ANY node, so a deadline may fire before another node's filter timeout: not a bounded-delay order.
@@ -513,8 +513,9 @@ func (c *c05Run) genPrefix() string {
 	return "d " + m.key
 }
 
-// pickLaggard: the lock-step scheduler's clock.  The honest node that is furthest behind fires the timer it is waiting for: nodes
-// are ordered by (round, period, time since the node entered the period at which its next timer expires), where the next timer is
+// pickLaggard: the lock-step scheduler's clock.  The honest node that is furthest behind IN ITS OWN PERIOD fires the timer it is
+// waiting for: nodes are ordered by the time since the node entered its period at which its next timer expires (as if all nodes
+// had entered their current periods at the same instant), where the next timer is
 // the earlier of the step timer (player.Deadline) and the fast-recovery timer (player.FastRecoveryDeadline) — so the first fast
 // timeout of a period (deadline 0) fires at once, step timers of equal steps fire before those of later steps, and once a step
 // deadline lies beyond the fast-recovery deadline (steps whose deadline exceeds ≈ 5–10 minutes) the fast-recovery timeout comes
@@ -540,10 +541,13 @@ func (c *c05Run) pickLaggard(hon []int) (int, string) {
 		}
 		if len(best) > 0 {
 			b := best[0]
-			if x.rnd > b.rnd || (x.rnd == b.rnd && (x.per > b.per || (x.per == b.per && x.at > b.at))) {
+			// fairness: ONLY the period-relative expiry counts.  Ordering by (round, period) first would starve a node that is
+			// ahead: the fast-recovery timers of the nodes behind it never run out, so it would never reach the step at which it
+			// re-broadcasts the bundle the others are waiting for.  With this order every node's timers fire infinitely often.
+			if x.at > b.at {
 				continue
 			}
-			if x.rnd != b.rnd || x.per != b.per || x.at != b.at {
+			if x.at != b.at {
 				best = best[:0]
 			}
 		}
